@@ -439,6 +439,10 @@ impl SysGen {
                 if a.components().is_empty() {
                     continue;
                 }
+                // occasionally a task that never releases a job (it must change nothing)
+                if !self.exact_only && n >= 2 && k > 0 && rng.chance(1, 25) {
+                    break Arr::Never;
+                }
                 break a;
             };
             let sep = mean_separation(&arr).max(1);
